@@ -934,7 +934,7 @@ impl RefRt {
                         let w = &mut *g;
                         let prog = match e {
                             Event::Start { prog, .. } => Some(*prog),
-                            Event::Noop => None,
+                            Event::Noop | Event::Text(_) => None,
                             e => {
                                 let Some(ix) = w.pending.iter().position(|q| q == e) else { return Err(format!("update applied {e:?}, which is not pending (never emitted, or applied twice)")) };
                                 if let Some((em, _)) = e.emitter() {
